@@ -205,6 +205,8 @@ func (k *c12run) jw(a, b string, boost c12rat, prefix int, tie bool) {
 	c.Eval()
 	if tie {
 		c.Tie("jaro "+hexs(a)+" "+hexs(b), c12fl(j))
+		c.Tie("jarof "+hexs(a)+" "+hexs(b), c05f64(j)) // the float64 value, bit for bit
+		c.Count("jarof")
 		c.Tie(fmt.Sprintf("jw %s %s %s %d", hexs(a), hexs(b), boost, prefix), c12fl(w))
 	}
 }
